@@ -91,6 +91,13 @@ Fixpoint hist_run (h : hst) (evs : list (req * resp)) : option hst :=
 
 (** ---- C14 ------------------------------------------------------------- *)
 
+(** The reserved destinations of the mcrew container as its documentation
+    gives them (cmd/mcrew/README.md: "to":"ws", "to":"timers", "to":"http");
+    cmd/mdb documents none.  Written here from the documentation; the model
+    ([mcrew_services], [mdb_services]) takes its names from the source. *)
+Definition documented_services : list string := ["ws"; "http"; "timers"].
+Definition documented_mdb_services : list string := [].
+
 Definition named_in (l : list json) (id : string) : bool :=
   existsb (fun x => match x with JStr s => String.eqb s id | _ => false end) l.
 
